@@ -43,6 +43,7 @@ def install_contracts():
     if getattr(jsonpath.JSONPatch.apply, "_verif", False):
         return
     orig = jsonpath.JSONPatch.apply
+    CONTRACT["orig"] = orig
 
     def snap(self):
         return canon(self.asdicts())
@@ -74,7 +75,7 @@ def install_contracts():
 
 def plan(tier, seed):
     n = 14 if tier == "quick" else 46
-    return [{"kind": "flags"}] + [{"kind": "threads", "rounds": 25 if tier == "quick" else 150} for _ in range(2 if tier == "quick" else 6)] + [{"n": 3000 if tier == "quick" else 30000} for _ in range(n)]
+    return [{"kind": "flags"}, {"kind": "deep-values"}] + [{"kind": "threads", "rounds": 25 if tier == "quick" else 150} for _ in range(2 if tier == "quick" else 6)] + [{"n": 3000 if tier == "quick" else 30000} for _ in range(n)]
 
 
 def build_chain(ops, jsonpath, pointer_objects=False):
@@ -261,6 +262,90 @@ def tagged(v, tag, n=None):
     return v
 
 
+def _walk_ids(v):
+    """ids of every container reachable from v, and a size signature - without recursion (values here are nested deeper
+    than copy.deepcopy or json can follow)."""
+    ids, leaves, total = set(), 0, 0
+    stack = [v]
+    while stack:
+        x = stack.pop()
+        if isinstance(x, dict):
+            if id(x) in ids:
+                continue
+            ids.add(id(x))
+            total += len(x)
+            stack.extend(x.values())
+        elif isinstance(x, list):
+            if id(x) in ids:
+                continue
+            ids.add(id(x))
+            total += len(x)
+            stack.extend(x)
+        else:
+            leaves += 1
+    return ids, (len(ids), leaves, total)
+
+
+def run_deep_values(ctx):
+    """Operation values nested far deeper than copy.deepcopy can follow.  Whether such a patch applies is not judged
+    (the interpreter's recursion limit is not the library's to lift); what is judged is what the statement says about
+    any patch: applying it never changes it, and results share nothing with it or with each other."""
+    import jsonpath
+
+    def nest(depth, shape):
+        v = ["bottom"]
+        for i in range(depth):
+            v = [v] if shape == "arrays" or (shape == "mixed" and i % 2) else {"k": v}
+        return v
+    for depth in (50, 200, 400, 600, 900, 1500, 3000):
+        for shape in ("arrays", "objects", "mixed"):
+            for opname in ("add", "replace", "addne", "addap", "copy"):
+                for form in ("dicts", "builder"):
+                    ctx.evaluation()
+                    value = nest(depth, shape)
+                    tail_path = "/deep" + ("/0" if isinstance(value, list) else "/k")
+                    if opname == "copy":
+                        doc0 = {"x": 1, "src": value}
+                        ops = [{"op": "copy", "from": "/src", "path": "/deep"}, {"op": "add", "path": "/deep/extra" if isinstance(value, dict) else "/deep/-", "value": "tag"}]
+                    else:
+                        doc0 = {"x": 1, "deep": 0}
+                        ops = [{"op": opname, "path": "/deep" if opname != "addne" else "/deep2", "value": value}]
+                        ops.append({"op": "add", "path": ("/deep" if opname != "addne" else "/deep2") + ("/extra" if isinstance(value, dict) else "/-"), "value": "tag"})
+                    try:
+                        patch = jsonpath.JSONPatch(ops) if form == "dicts" else build_chain(ops, jsonpath)
+                    except Exception:  # noqa: BLE001
+                        ctx.count("deep_value_patch_refused_at_construction")
+                        continue
+                    held = [op.value for op in patch.ops if hasattr(op, "value")]
+                    before = [_walk_ids(v)[1] for v in held] + [_walk_ids(value)[1]]
+                    results = []
+                    for _k in range(2):
+                        doc = {"x": 1, "deep": 0} if opname != "copy" else {"x": 1, "src": nest(depth, shape)}
+                        try:
+                            # (the H6 contract serialises the patch, which recursion-limits on its own: call the real method)
+                            results.append(CONTRACT["orig"](patch, doc) if "orig" in CONTRACT else patch.apply(doc))
+                        except BaseException as e:  # noqa: BLE001
+                            if not isinstance(e, Exception):
+                                raise
+                            ctx.cell("deep_value_outcomes", "depth=%d %s -> refused (%s)" % (depth, opname, type(e).__name__))
+                    case = {"kind": "deep-values", "depth": depth, "shape": shape, "op": opname, "form": form}
+                    after = [_walk_ids(v)[1] for v in held] + [_walk_ids(value)[1]]
+                    if after != before:
+                        ctx.violation("patch-or-caller-value-modified-by-apply:deep-value", case, {"depth": depth, "op": opname, "form": form, "signature_before": repr(before), "signature_after": repr(after)})
+                        return
+                    own = set().union(*[_walk_ids(v)[0] for v in held + [value]]) if held or value else set()
+                    rids = [_walk_ids(x)[0] for x in results]
+                    if any(ri & own for ri in rids):
+                        ctx.violation("result-shares-structure-with-patch-values:deep-value", case, {"depth": depth, "op": opname, "form": form})
+                        return
+                    if len(rids) == 2 and rids[0] & rids[1]:
+                        ctx.violation("results-of-repeated-application-share-structure:deep-value", case, {"depth": depth, "op": opname, "form": form})
+                        return
+                    if results:
+                        ctx.cell("deep_value_outcomes", "depth=%d %s -> applied" % (depth, opname))
+                        ctx.count("deep_value_applications", len(results))
+
+
 def run_threads(ctx, rounds, fixed=None):
     """One patch object applied by 8 threads at once, each to documents of its own; every result against the model
     for that document (yields injected at statement starts inside patch.py / pointer.py)."""
@@ -329,6 +414,9 @@ def run(spec, ctx):
     if spec.get("kind") == "threads":
         run_threads(ctx, spec["rounds"])
         return
+    if spec.get("kind") == "deep-values":
+        run_deep_values(ctx)
+        return
     if spec.get("kind") == "flags":
         from rt import flag_history
 
@@ -363,5 +451,8 @@ def replay(case, ctx):
         return
     if case.get("kind") == "threads":
         run_threads(ctx, 40, fixed=(case["template"], case["ops"]))
+        return
+    if case.get("kind") == "deep-values":
+        run_deep_values(ctx)
         return
     check(ctx, case["doc"], case["ops"], True)
